@@ -84,3 +84,21 @@ check("C16", "model_checking",
       "trace must be byte-identical.",
       TRUST + " CPython set iteration = ascending hash for collision-free small tables; string-set order only sampled via PYTHONHASHSEED.",
       "explicit-state BFS x exhaustive hash-order permutation", "E1-explicit-state + E5-hash-order-permuter", "DESIGN.md section 4 C16")
+
+ENGINES.append(dict(name="E2-schedule-explorer", path="/verif/mc/e2.py", serves_properties=["C08", "C09"],
+                    kind_free_text="stateless depth-first enumeration of schedule choice prefixes (tied timers, ready-work-vs-timer order), optional deviation bound, replay self-test; timeline runners in /verif/mc/timeline.py drive VLoop / the thread shim"))
+
+check("C08", "exploration",
+      "Every environment script up to the length bound over a grid straddling the deadlines x every schedule choice (order of timers tied at an "
+      "instant, expiry notification queued before/behind pending events, busy actions spanning a deadline) is executed on both engines under a "
+      "virtual clock and judged on its timestamped log (fires when due, once per activation, never early, never after leave/stop).",
+      TRUST + " Sync engine explored cooperatively (switches at shim calls; cancelled waiters and idle polling sleepers are reduced as stutter steps).",
+      "stateless schedule exploration under a virtual clock (VLoop / thread shim), exhaustive over scripts x tie orders", "E2-schedule-explorer + VLoop + E3-thread-scheduler",
+      "DESIGN.md section 4 C08")
+check("C09", "exploration",
+      "Service kinds (coroutine, callable, child machine) x outcomes x onError x entry variants x environment scripts around the completion time "
+      "x schedule choices on both engines; per activation: started once with declared input, exactly one own outcome, stale results discarded, "
+      "error status without onError, census of tasks/threads/children after every op.",
+      TRUST + " Child-machine sources poll on a timer; their schedule tree is explored up to a deviation bound (reported as a cap).",
+      "stateless schedule exploration under a virtual clock, exhaustive over scripts x tie orders (deviation-bounded for child machines)",
+      "E2-schedule-explorer + VLoop + E3-thread-scheduler", "DESIGN.md section 4 C09")
